@@ -10,7 +10,7 @@ from mpservice.multiprocessing.server_process import Server, ServerProcess
 
 class HookLock:
     def __init__(self, lock):
-        self.lock, self.hook, self.n, self.at = lock, None, 0, 0
+        self.lock, self.hook, self.n, self.at, self.inside = lock, None, 0, 0, 'decref'
 
     def acquire(self, *a, **k):
         return self.lock.acquire(*a, **k)
@@ -19,7 +19,7 @@ class HookLock:
         return self.lock.release()
 
     def boundary(self):
-        if self.hook is not None and sys._getframe(2).f_code.co_name == 'decref':
+        if self.hook is not None and sys._getframe(2).f_code.co_name == self.inside:
             self.n += 1
             if self.n == self.at:
                 h, self.hook = self.hook, None
@@ -81,10 +81,61 @@ def run(at):
     return True
 
 
+def run_dual(at):
+    """the dual schedule: thread A re-wraps a hosted value (Server.create); at the chosen point where A does not hold the
+    mutex inside create, thread B drops the last OTHER proxy of that value.  A's managed() call must still return a usable
+    proxy (the value is referenced by the proxy being made)."""
+    reg = dict(ServerProcess._registry)
+    srv = Server(reg, None, b'k' * 16, 'pickle')
+    mpp.current_process()._manager_server = srv
+    mpp.current_process().authkey = b'k' * 16
+    srv.mutex = HookLock(srv.mutex)
+    srv.mutex.inside = 'create'
+    inner = [1, 2, 3]
+    held = {'p1': srv.create(None, 'ManagedList', inner)}
+    ident = held['p1']._id
+    fired = []
+
+    def drop():
+        held.pop('p1')
+        gc.collect()
+
+    def hook():
+        fired.append(1)
+        t = threading.Thread(target=drop)
+        t.start()
+        t.join(10)
+
+    srv.mutex.hook = hook
+    srv.mutex.at = at
+    try:
+        p2 = srv.create(None, 'ManagedList', inner)
+    except BaseException as e:      # noqa: BLE001
+        print(f'managed() of a hosted value failed because its last other proxy went at the same time: {type(e).__name__} {e}')
+        return False
+    if not fired:
+        return None
+    try:
+        n = p2.__len__()
+    except BaseException as e:      # noqa: BLE001
+        print(f'the proxy managed() returned is unusable: {type(e).__name__} {e}; refcounts {dict(srv.id_to_refcount)}')
+        return False
+    if srv.id_to_refcount.get(ident) != 1 or n != 3:
+        print('inconsistent server state', dict(srv.id_to_refcount), n)
+        return False
+    del p2
+    gc.collect()
+    if ident in srv.id_to_obj or ident in srv.id_to_refcount:
+        print('object not disposed of after the last proxy went', dict(srv.id_to_refcount))
+        return False
+    return True
+
+
 if __name__ == '__main__':
     points = [int(sys.argv[1])] if len(sys.argv) > 1 else range(1, 9)
     bad = [at for at in points if run(at) is False]
-    if bad:
-        print('failing interleaving point(s) inside decref:', bad)
+    bad2 = [at for at in points if run_dual(at) is False]
+    if bad or bad2:
+        print('failing interleaving point(s): inside decref', bad, '; inside create', bad2)
         sys.exit(1)
     print('OK')
